@@ -727,7 +727,7 @@ def carried_extract(c, r):
     return ('list', tuple(extract_class(name, x) for x in r))
 
 
-def history_failure(name, tr):
+def history_failure(name, tr, rng=None):
     """'observation does not disturb': encode twice; decode twice (fresh objects, then the SAME object); on the
     decoded value look at every Any with cast_out (twice) and dict_contents, then re-encode: same octets"""
     from bacpypes.constructeddata import Sequence
@@ -783,12 +783,68 @@ def history_failure(name, tr):
             return dict(base, kind='reencode-after-second-decode-differs', again=enc(b).hex())
     except Exception as e:
         return dict(base, kind='reencode-after-second-decode-refused', exc=type(e).__name__, msg=str(e)[:200])
+    # second use after a failure: (1) the same object refuses to encode while one required element is missing, then
+    # encodes to the same octets once it is put back; (2) a decode of damaged octets into an object (refused or
+    # not), then a decode of the good octets into that SAME object
+    if rng is not None and cdesc(name)['kind'] == 'seq':
+        d = cdesc(name)
+        req = [e['name'] for e in d['elements'] if not e['opt'] and getattr(src, e['name'], None) is not None]
+        if req:
+            nm = rng.choice(req)
+            keep = getattr(src, nm)
+            setattr(src, nm, None)
+            try:
+                enc(src)
+                refused = False
+            except Exception:
+                refused = True
+            setattr(src, nm, keep)
+            try:
+                o3 = enc(src)
+            except Exception as e:
+                return dict(base, kind='encode-after-failure-refused', history='%s := None, encode, restore' % nm,
+                            exc=type(e).__name__, msg=str(e)[:200])
+            if o3 != o1:
+                return dict(base, kind='encode-after-failure-differs', history='%s := None, encode (refused=%s), restore' % (nm, refused),
+                            again=o3.hex())
+    if rng is not None and len(o1) >= 2:
+        damaged = bytearray(o1)
+        how = rng.randrange(3)
+        if how == 0:
+            damaged = damaged[:rng.randrange(1, len(damaged))]
+        elif how == 1:
+            damaged[rng.randrange(len(damaged))] ^= 1 << rng.randrange(8)
+        else:
+            del damaged[rng.randrange(len(damaged))]
+        victim = S()['classes'][name]()
+        try:
+            dec(bytes(damaged), into=victim)
+        except _Watchdog:
+            return dict(base, kind='decode-hang', damaged=bytes(damaged).hex())
+        except Exception:
+            pass
+        try:
+            dec(o1, into=victim)
+            ev = extract_class(name, victim)
+            ov = enc(victim)
+        except Exception as e:
+            return dict(base, kind='decode-after-failure-refused', damaged=bytes(damaged).hex(), exc=type(e).__name__, msg=str(e)[:200])
+        if ev != ea:
+            return dict(base, kind='decode-after-failure-differs', damaged=bytes(damaged).hex(), got=repr(ev)[:1500])
+        if ov != o1:
+            return dict(base, kind='reencode-after-failed-decode-differs', damaged=bytes(damaged).hex(), again=ov.hex())
     # look at the decoded value `a`
     for anyobj, c in find_anys_class(name, tr, a):
         klass = carried_py_type(c)
         before = [tt(x) for x in anyobj.tagList.tagList]
         want = carried_expected(c)
         what = '%s of %s' % (c[0], c[1])
+        if rng is not None and rng.random() < 0.5:      # a look with the wrong type first (usually refused)
+            wrong = S()['classes'][rng.choice(carry_pool()['ctxprim'])]
+            try:
+                guarded(lambda: anyobj.cast_out(wrong), 3)
+            except Exception:
+                pass
         for attempt in (1, 2):
             try:
                 r = guarded(lambda: anyobj.cast_out(klass))
@@ -1006,9 +1062,132 @@ def standalone_cast_failure(atr):
     return None
 
 
+def carried_py_value(c):
+    """the Python value an application would hand to Any.cast_in for this carried content"""
+    form, name = c[0], c[1]
+    if form == 'class':
+        return build_class(name, c[2][0])
+    return carried_py_type(c)([build_class(name, x) for x in c[2]])
+
+
+def spoil(name, obj, rng, first=False):
+    """make a Sequence object un-encodable AFTER some of its elements (required element at position >= 1 set to None,
+    or, failing that, at position 0); returns a description or None.  Mutates obj."""
+    d = cdesc(name)
+    if d['kind'] != 'seq':
+        return None
+    req = [i for i, e in enumerate(d['elements']) if not e['opt'] and getattr(obj, e['name'], None) is not None]
+    late = [i for i in req if any(getattr(obj, e['name'], None) is not None for e in d['elements'][:i])]
+    if not (late or req):
+        return None
+    i = rng.choice(late) if late and not first else rng.choice(req)
+    setattr(obj, d['elements'][i]['name'], None)
+    return '%s.%s := None' % (name, d['elements'][i]['name'])
+
+
+def carried_bad_value(c, rng):
+    """like carried_py_value with ONE invalid member (at a random position): its encode() raises part-way"""
+    form, name = c[0], c[1]
+    if form == 'class':
+        obj = build_class(name, c[2][0])
+        what = spoil(name, obj, rng)
+        return (obj, what) if what else (None, None)
+    items = [build_class(name, x) for x in c[2]]
+    if not items:
+        return None, None
+    j = rng.randrange(len(items))
+    what = spoil(name, items[j], rng, first=(j > 0 and rng.random() < 0.5))
+    if not what:
+        return None, None
+    return carried_py_type(c)(items), 'item %d: %s' % (j, what)
+
+
+def cast_in_recovery(atr, rng):
+    """Any.cast_in(value with one invalid member) is refused; the corrected value is then cast into the SAME Any.
+    Returns (tag tuples now in the Any, description) or None when no refused cast_in could be provoked."""
+    from bacpypes.constructeddata import Any
+    c = atr[2]
+    if c[0] == 'atom':
+        return None
+    bad, what = carried_bad_value(c, rng)
+    if bad is None:
+        return None
+    a = Any()
+    try:
+        a.cast_in(bad)
+        return None                      # not refused: nothing to recover from
+    except Exception as e:
+        what += ' -> ' + type(e).__name__
+    a.cast_in(carried_py_value(c))
+    return a, what
+
+
+def cast_in_recovery_failure(atr, rng):
+    """direct: after a refused cast_in the Any must behave like a fresh one"""
+    from bacpypes.constructeddata import Any
+    from bacpypes.apdu import WritePropertyRequest, APDU
+    c = atr[2]
+    base = {'type': '%s of %s' % (c[0], c[1]), 'value': repr(carried_expected(c))[:2000], 'features': []}
+    try:
+        r = cast_in_recovery(atr, rng)
+    except Exception as e:
+        return dict(base, kind='cast-in-after-failure-refused', exc=type(e).__name__, msg=str(e)[:200])
+    if r is None:
+        return None
+    a, what = r
+    base['history'] = what
+    fresh = Any()
+    fresh.cast_in(carried_py_value(c))
+    got, want = [tt(x) for x in a.tagList.tagList], [tt(x) for x in fresh.tagList.tagList]
+    if got != want:
+        return dict(base, kind='cast-in-after-failure-differs', got=tags_to_octets(got).hex(), want=tags_to_octets(want).hex())
+    # the same inside a PDU: octets equal to a fresh object's, and the value comes back
+    def wp(anyobj):
+        x = APDU()
+        WritePropertyRequest(objectIdentifier=('analogValue', 1), propertyIdentifier='presentValue', propertyValue=anyobj).encode(x)
+        return bytes(x.pduData)
+    try:
+        o1, o2 = wp(a), wp(fresh)
+        back = impl_decode_pdu('WritePropertyRequest', o1)
+        val = carried_extract(c, back.propertyValue.cast_out(carried_py_type(c)))
+    except Exception as e:
+        return dict(base, kind='pdu-after-failed-cast-in-refused', exc=type(e).__name__, msg=str(e)[:200])
+    if o1 != o2:
+        return dict(base, kind='pdu-after-failed-cast-in-differs', got=o1.hex(), want=o2.hex())
+    if val != carried_expected(c):
+        return dict(base, kind='pdu-after-failed-cast-in-value-differs', got=repr(val)[:1500])
+    return None
+
+
+def case_cast_in_recovery(atr, rng):
+    """correspondence: the model's Any after a refused cast_in is what it was (empty), so after the corrected cast_in
+    it holds exactly the encoding of the value"""
+    c = atr[2]
+    try:
+        r = cast_in_recovery(atr, rng)
+    except Exception:
+        return None
+    if r is None:
+        return None
+    a, what = r
+    exp = [0] + canon_tags([tt(x) for x in a.tagList.tagList])
+    if c[0] == 'class':
+        val = coq_val(c[2][0])
+    else:
+        val = '(VList [%s])' % ';'.join(coq_val(x) for x in c[2])
+    coq = 'canon_res canon_tags (encode %s %s)' % (carried_coq_type(c), val)
+    return Case('cast-in-recovery', coq, exp, key=('castin', c[0], c[1], repr(exp)), nontrivial=True,
+                desc={'op': 'Any.cast_in refused, then corrected cast_in on the same Any; Any.tagList',
+                      'type': '%s of %s' % (c[0], c[1]), 'history': what})
+
+
 def extra_cases(rng, tier):
     """witnesses of the recorded findings and hand-picked boundary inputs"""
     out = []
+    for atr in systematic_carried(rng):
+        k = case_cast_in_recovery(atr, rng)
+        if k is not None:
+            out.append(k)
     for atr in systematic_carried(rng):
         out.append(case_cast(atr[2], atr[1], 'cast-systematic'))
     # required un-contexted empty list followed by a closing tag (AtomicReadFile-ACK, record access, no records)
@@ -1107,7 +1286,9 @@ def normalise_dict(d):
 def direct(rng, tier, focus=()):
     failures, n, nontriv = [], 0, set()
     per_type = {}
-    nhist = {'histories': 0, 'anys_observed': 0}
+    nhist = {'histories': 0, 'anys_observed': 0, 'cast_in_recoveries': 0}
+    fresh_jobs = vector_jobs()           # the worked examples are what the fresh decoder sees FIRST
+    fresh_cap = 400 if tier == 'quick' else 3000
     names = all_names()
     samples = []
     reps = 1 if tier == 'quick' else 4
@@ -1128,9 +1309,22 @@ def direct(rng, tier, focus=()):
                     failures.append(f)
                 else:
                     n += 1
-                    h = history_failure(name, tr)
+                    h = history_failure(name, tr, rng)
                     if h:
                         failures.append(h)
+                    elif len(fresh_jobs) < fresh_cap and not features(tr) and rng.random() < 0.5:
+                        try:
+                            oct_ = impl_encode_pdu(name, tr) if is_pdu(name) else tags_to_octets(impl_encode_tags(name, tr))
+                            fresh_jobs.append((name, oct_, repr(strip(tr)), None, 'generated'))
+                        except Exception:
+                            pass
+                    for atr in iter_anys(tr):
+                        if rng.random() < 0.5:
+                            n += 1
+                            f2 = cast_in_recovery_failure(atr, rng)
+                            nhist['cast_in_recoveries'] += 1
+                            if f2:
+                                failures.append(f2)
                     nhist['histories'] += 1
                     nhist['anys_observed'] += sum(1 for _ in iter_anys(tr))
         if len(samples) < 4 and name in ('ReadPropertyACK', 'WritePropertyRequest', 'IAmRequest', 'EventParameter'):
@@ -1142,8 +1336,15 @@ def direct(rng, tier, focus=()):
         f = standalone_cast_failure(atr)
         if f:
             failures.append(f)
+        n += 1
+        f = cast_in_recovery_failure(atr, rng)
+        nhist['cast_in_recoveries'] += 1
+        if f:
+            failures.append(f)
     n += len(_vectors())
     failures.extend(annexf_failures())
+    n += len(fresh_jobs)
+    failures.extend(fresh_process_failures(fresh_jobs))
     # smallest first so that the replay written is the most readable one
     failures.sort(key=lambda f: len(f.get('octets', '')) + len(f.get('value', '')))
     # "matches the standard": the element tables of the service PDUs and the base types they use, and the
@@ -1166,7 +1367,9 @@ def direct(rng, tier, focus=()):
     n += len(std_asn1.SEQUENCES) + len(std_asn1.CHOICES)
     return failures, {'evaluations': n, 'distinct_nontrivial': len(nontriv), 'types_exercised': len(per_type),
                       'min_values_per_type': min(per_type.values()) if per_type else 0, 'samples': samples,
-                      'observation_histories': nhist['histories'], 'typed_anys_cast_out_twice': nhist['anys_observed']}
+                      'observation_histories': nhist['histories'], 'typed_anys_cast_out_twice': nhist['anys_observed'],
+                      'cast_in_after_failure_histories': nhist['cast_in_recoveries'],
+                      'decoded_in_fresh_decode_only_process': len(fresh_jobs)}
 
 
 # worked examples in the style of Annex F.  Each: class, constructor arguments, the octets of the service
@@ -1216,6 +1419,47 @@ def hand_encode(items):
             out.append(len(data))
         out += data
     return bytes(out)
+
+
+def fresh_process_failures(jobs):
+    """jobs: [(type name, octets, expected tree repr or None, expected dict repr or None, label)].  A fresh interpreter that
+    only decodes (harness/c03_fresh.py) must report the values this (encoder) process had: order of first use of
+    a class must not matter."""
+    import json, subprocess
+    import core
+    if not jobs:
+        return []
+    script = os.path.join(os.path.dirname(os.path.dirname(os.path.abspath(__file__))), 'c03_fresh.py')
+    env = dict(os.environ, PYTHONPATH=core.IMPL, VERIF_REPO=core.REPO, PYTHONHASHSEED='0', PYTHONDONTWRITEBYTECODE='1')
+    inp = ''.join(json.dumps({'type': j[0], 'octets': j[1].hex()}) + '\n' for j in jobs)
+    try:
+        p = subprocess.run([sys.executable, script], input=inp, env=env, capture_output=True, text=True, timeout=600)
+        lines = [l for l in p.stdout.split('\n') if l.strip()]
+    except subprocess.TimeoutExpired:
+        return [{'kind': 'fresh-process-decoder-hang', 'type': None, 'features': []}]
+    if p.returncode != 0 or len(lines) != len(jobs):
+        return [{'kind': 'fresh-process-decoder-crashed', 'type': None, 'features': [], 'log': (p.stderr or '')[-600:]}]
+    fails = []
+    for (name, octets, want_tree, want_dict, label), line in zip(jobs, lines):
+        got = json.loads(line)
+        base = {'type': name, 'octets': octets.hex(), 'features': [label], 'value': (want_tree or want_dict or '')[:2000]}
+        if 'exc' in got:
+            fails.append(dict(base, kind='fresh-process-decode-refused', exc=got['exc'], msg=got.get('msg')))
+        elif want_tree is not None and got['tree'] != want_tree:
+            fails.append(dict(base, kind='fresh-process-decode-differs', got=got['tree'][:2000]))
+        elif want_dict is not None and got['dict'] != want_dict:
+            fails.append(dict(base, kind='fresh-process-dict-contents-differ', got=got['dict'][:2000], want=want_dict[:2000]))
+    return fails
+
+
+def vector_jobs():
+    from bacpypes.constructeddata import Sequence
+    jobs = []
+    for name, kw, hexs, items in _vectors():
+        cls = S()['classes'][name]
+        want = repr(normalise_dict(Sequence.dict_contents(cls(**kw))))
+        jobs.append((name, bytes.fromhex(hexs.replace(' ', '')), None, want, 'annexF'))
+    return jobs
 
 
 def annexf_failures():
@@ -1318,6 +1562,11 @@ def replay(payload):
             print('implementation   :', d.expected)
         except Exception as e:
             print('implementation encode raises', type(e).__name__)
+    if str(f.get('kind', '')).startswith('fresh-process') and f.get('octets') and f.get('type'):
+        want_tree = f.get('value') if f.get('kind') == 'fresh-process-decode-differs' else None
+        want_dict = f.get('want') if f.get('kind') == 'fresh-process-dict-contents-differ' else None
+        now = fresh_process_failures([(f['type'], bytes.fromhex(f['octets']), want_tree, want_dict, 'replay')])
+        print('fresh decode-only process now:', now or 'reports the encoder process\'s value')
     for b in payload.get('broken', []):
         if isinstance(b, dict) and b.get('minimal_case'):
             print('disagreeing case:', b['minimal_case'])
